@@ -77,7 +77,13 @@ fn run(input: RunInput) -> ScenFuture {
                 if a != Affinity::Unknown || limit.map(|l| count + 1 >= l).unwrap_or(false) {
                     decided += 1;
                 }
+                let t_dial = w.now_ns();
                 let res = d.net.connect_with_peer_id(l.addr, l.peer_id).await;
+                let took_ms = (w.now_ns() - t_dial) / 1_000_000;
+                // "a rejected dialer sees its connect fail": within its connect timeout, not later
+                if res.is_err() && took_ms > 1_500 + 50 {
+                    w.violate("rejected-dialer-not-told-within-connect-timeout", format!("limit={limit:?}"), format!("step {step}: connect of d{k} failed only after {took_ms} ms (connect timeout 1500 ms)"));
+                }
                 sleep_ms(settle_ms).await;
                 desc = format!("arrive d{k} aff={a:?} count={count}/{limit:?} model={} got={}", if permit { "admit" } else { "refuse" }, if res.is_ok() { "ok" } else { "err" });
                 let key = format!("aff={a:?} limit={limit:?} count_vs_limit={}", limit.map(|l| if count < l { "below" } else if count == l { "at" } else { "above" }).unwrap_or("none"));
